@@ -152,6 +152,12 @@ class EPModel(KModel):
                 i = int(idx.const())
                 return FieldPlace(ValPlace(base), str(i))
             return NotImplemented
+        if name in ('std::ops::Index::index', 'core::slice::index::<impl std::ops::Index for [T]>::index', 'builtin::index') or \
+                (last == 'index' and name.startswith('ndarray::') and 'Dim' in name):
+            if isinstance(a0, Obj) and a0.kind in ('dimseq', 'qidx') and isinstance(deref_all(args[1]), Num) and str(deref_all(args[1]).r) == 'nr':
+                src = a0.d['dim'] if a0.kind == 'dimseq' else a0
+                if isinstance(src, Obj) and src.kind == 'qidx' and self.scn.get('axis_class') == 'query':
+                    return Ref(ValPlace(Num(Rat.atom('e[nr]'))))       # the element's own index on query axis nr
         if name in ('std::ops::Index::index', 'core::slice::index::<impl std::ops::Index for [T]>::index'):
             if isinstance(a0, Obj) and a0.kind == 'shape':
                 idx = deref_all(args[1])
@@ -330,6 +336,12 @@ class EPModel(KModel):
             v.d.clear()
             v.d.update(nv.d)
             return Unit()
+        if last == 'index_axis_move' and isinstance(deref_all(args[2]), Num) and str(deref_all(args[2]).r) == 'e[k]':
+            # selecting the element's own position on the (currently) leading query axis: one step of walking down the query axes
+            if not (is_axis0(args[1]) and d.get('lead') in (None, 'qidx-partial') and d['rootkind'] in ('caller', 'alloc')):
+                raise Unsupported("index_axis_move at a component of the query index on something other than the leading axis of the buffer", e)
+            return Obj('view', root=d['root'], rootkind=d['rootkind'], shape=d['shape'], lead='qidx-partial', ones=Rat.const(0),
+                       base_shape=d.get('base_shape') or d['shape'], qdrop=d.get('qdrop', Rat.const(0)) + 1)
         if last == 'index_axis_move':
             i = deref_all(args[2])
             if not (is_axis0(args[1]) and isinstance(i, Num) and i.const() == 0 and d.get('lead') == 'qidx-unit'):
@@ -470,6 +482,31 @@ class EPModel(KModel):
 
     def for_loop(self, iterable, pat, body, frame, e):
         it = deref_all(iterable)
+        if isinstance(it, Obj) and it.kind == 'dimseq' and isinstance(it.d['dim'], Obj) and it.d['dim'].kind == 'qidx':
+            # `for &idx in index.slice()`: one inductive step over the components of the element's own index; a view indexed at the
+            # component on its leading axis in every step ends as the element's sub-view once all query axes are consumed
+            before = {}
+            f = frame
+            while f is not None:
+                for k, v in f.vars.items():
+                    if isinstance(v, Obj) and v.kind == 'view' and k not in before:
+                        before[k] = (f, v)
+                f = f.parent
+            if not self.interp.match_pat(pat, ValPlace(Ref(ValPlace(Num(Rat.atom('e[k]'))))), frame) and \
+                    not self.interp.match_pat(pat, ValPlace(Num(Rat.atom('e[k]'))), frame):
+                raise Unsupported("loop pattern over the components of the query index", e)
+            self.interp.eval(body, frame)
+            for k, (f, v0) in before.items():
+                v1 = f.vars[k]
+                if isinstance(v1, Obj) and v1.kind == 'view' and v1 is not v0 and v1.d.get('lead') == 'qidx-partial':
+                    per = v1.d['qdrop'] - v0.d.get('qdrop', Rat.const(0))
+                    total = v0.d.get('qdrop', Rat.const(0)) + per * self.qdim.ndim()
+                    if not (per == Rat.const(1) and total == self.qdim.ndim()):
+                        raise Unsupported("walking down the query axes does not consume exactly the query axes", e)
+                    rest = self.after_query(v1.d['base_shape'], e)
+                    self.events.append(('slice_each_axis', True, True, 'by indexing each query axis at the element\'s own position'))
+                    f.vars[k] = Obj('view', root=v1.d['root'], rootkind=v1.d['rootkind'], shape=rest, lead='qidx', ones=Rat.const(0))
+            return Unit()
         if isinstance(it, Obj) and it.kind in ('indexed_iter', 'query_iter', 'query_zip', 'query_map'):
             # two generic elements: e (scenario result of the sink) followed by e2 (sink succeeds);
             # an early return propagates as the function's result
